@@ -137,7 +137,7 @@ def http_request(method, path, headers, body, version='HTTP/1.1'):
 _HEADER_LINE = re.compile(rb"^[!#$%&'*+\-.^_`|~0-9A-Za-z]+:[^\r\n]*$")  # RFC 7230 header-field, no obs-fold
 
 
-def judge_response(raw: bytes, exc, reader, label, require_response=True):
+def judge_response(raw: bytes, exc, reader, label, require_response=True, post=True):
     """Findings common to both parts: nothing escapes, no spin, an HTTP response with a status line, body is a SOAP
     envelope (fault shape if it is a fault) or empty / plain text for HTTP level errors."""
     out = []
@@ -193,6 +193,11 @@ def judge_response(raw: bytes, exc, reader, label, require_response=True):
                 out.append((f'{P}/{label}/fault-malformed', etree.tostring(fault)[:200].decode()))
             if fault is None and status >= 400:
                 out.append((f'{P}/{label}/error-status-without-fault', f'status {status}'))
+    if status == 500 and root is None and post:  # noqa: PLR2004
+        # the last resort of the HTTP handler: an exception came out of the component's do_post.  The request was
+        # answered, but with neither the proper response nor a SOAP fault  (GET: wsdl / plain resources, not judged here)
+        reason = lines[0].split(b' ', 2)[-1][:160].decode('latin-1')
+        out.append((f'{P}/{label}/internal-error-without-fault', f'500 {reason!r} with body {body[:60]!r}'))
     return out, status, root
 
 
@@ -334,7 +339,8 @@ def framing_case(ctx, c):
     ctx.case(c, not default_path, 'framing', classes=(f'chunk:{framing}', f'cl:{c["cl"]}', f'coding:{c["coding"]}', c['method'] or 'empty'))
     well_formed_request_line = c['method'] in ('POST', 'GET') and c['version'] in ('HTTP/1.1', 'HTTP/1.0') and bool(path) \
         and ' ' not in path
-    out, status, root = judge_response(response, exc, reader, 'framing', require_response=well_formed_request_line)
+    out, status, root = judge_response(response, exc, reader, 'framing', require_response=well_formed_request_line,
+                                       post=c['method'] == 'POST')
     if follow is not None and not out and status is not None:
         out += judge_follow_up(response, c)
     accepted = status is not None and status < 300 and (root is None or root.find(f'{{{S12}}}Body/{{{S12}}}Fault') is None)
@@ -364,7 +370,9 @@ def st_mutation():
         st.tuples(st.just('swap_action'), st.sampled_from(['', 'urn:nope', 'http://schemas.xmlsoap.org/ws/2004/08/eventing/Unsubscribe',
                                                            'http://standards.ieee.org/downloads/11073/11073-20701-2018/GetService/GetMdib'])).map(list),
         st.tuples(st.just('path'), st.sampled_from(['', '/', '/nope', 'SUFFIX/x', 'SUFFIX/../..', '?', 'PREFIXONLY', 'SUFFIX/G\x01et',
-                                                    'LAST\x01', 'SUFFIX\x7f', 'SUFFIX#f', 'SUFFIX;p', 'ABS', 'ABS-BAD', 'SUFFIX/\xe4'])).map(list),
+                                                    'LAST\x01', 'SUFFIX\x7f', 'SUFFIX#f', 'SUFFIX;p', 'ABS', 'ABS-BAD', 'SUFFIX/\xe4',
+                                                    # the device prefix exists, the service element below it does not
+                                                    'SERVICE:Foo', 'SERVICE:', 'SERVICE:get', 'SERVICE:Foo/Get'])).map(list),
         st.tuples(st.just('doctype'), st.sampled_from(['xxe', 'int', 'param', 'bomb', 'http'])).map(list),
         st.tuples(st.just('truncate'), st.integers(1, 3000)).map(list),
         st.tuples(st.just('prefix'), st.sampled_from(['bom', 'utf16', 'latin1decl', 'junk', 'ws'])).map(list),
@@ -428,6 +436,9 @@ def apply_mutations(base, muts, s):
                 a.text = mu[1]
         elif kind == 'path':
             first = '/' + path.strip('/').split('/')[0]
+            if mu[1].startswith('SERVICE:'):
+                path = first + '/' + mu[1][len('SERVICE:'):]
+                continue
             path = {'PREFIXONLY': first, 'LAST\x01': path.rsplit('/', 1)[0] + '/G\x01et', 'ABS': 'http://h' + path,
                     'ABS-BAD': 'http://[h' + path}.get(mu[1], path + mu[1][len('SUFFIX'):] if mu[1].startswith('SUFFIX') else mu[1])
         elif kind == 'doctype':
@@ -627,7 +638,8 @@ def fuzz_one(s, data: bytes):
     response, exc, reader = M.handle_raw(s['mem'][target], raw)
     reached = bool(s['handed'])
     try:
-        out, status, root = judge_response(response, exc, reader, 'fuzz', require_response=False)
+        out, status, root = judge_response(response, exc, reader, 'fuzz', require_response=False,
+                                           post=raw[:5] == b'POST ')
     except Exception as ex:  # noqa: BLE001  (e.g. an undecodable response body)
         if R.exc_in_library(ex) or isinstance(ex, (ValueError, OSError)):
             return [(f'{P}/fuzz/response-unjudgeable/{type(ex).__name__}', str(ex)[:200])], reached
